@@ -61,7 +61,7 @@ PLAN = {
         "level": "model_checking",
         "engines": lambda tier: [_e("release", "locmc", "c12", "--shards", "4")],
         "assumptions": [
-            "state = vector of recorded locations (reference model: Vec<String>); string alphabet of 10 admissible strings incl. the 213-byte limit, multi-byte UTF-8 and four spellings of one path",
+            "state = vector of recorded locations (reference model: Vec<String>); string alphabet of 11 admissible strings incl. the 213-byte limit, multi-byte UTF-8, a trailing NUL and four spellings of one path",
             "a standalone manifest cannot be opened as a Container once its locations point nowhere, so the content/entry comparison runs on the container-embedded initial states only",
         ],
     },
